@@ -87,17 +87,17 @@ type Result struct {
 	Blocks      [][]Proposal
 	Received    map[string][]byte // MID -> decompressed message
 	ReceivedSeq []string
-	AnswersSent []string // FS lines the peer sent
+	AnswersSent []string    // FS lines the peer sent
 	DataBlocks  map[int]int // data block size -> count seen in frames from the station under test
 	// Outbound
-	Delivered    []string // peer messages accepted by the station and confirmed by its next turn
-	Unconfirmed  []string // sent but the confirmation never came
+	Delivered                    []string // peer messages accepted by the station and confirmed by its next turn
+	Unconfirmed                  []string // sent but the confirmation never came
 	RejectedByLib, DeferredByLib []string
-	FSReceived   []string
-	FQBy         string // "peer" | "lib" | ""
-	Written      []byte
-	Tags         []Tag
-	LibBytes     int
+	FSReceived                   []string
+	FQBy                         string // "peer" | "lib" | ""
+	Written                      []byte
+	Tags                         []Tag
+	LibBytes                     int
 }
 
 type peer struct {
@@ -111,7 +111,7 @@ type peer struct {
 	pending     []OutMsg
 	deferredNow map[string]bool
 	libDone     map[string]bool // library MIDs answered + or -
-	libNoMore   bool           // library's last turn was FF
+	libNoMore   bool            // library's last turn was FF
 	weSentFF    bool
 	gzipOn      bool
 }
